@@ -1414,6 +1414,32 @@ def gen_simd_kernels(repo):
     stm = [' '.join(x.split()) for x in body[body.index('{') + 1:body.rindex('}')].split(';') if x.strip()]
     out += '/-- %s: set_dst_pixel: its statements -/\n' % f2
     out += 'def u8x2_sse4_set_dst_pixel : String := "%s"\n\n' % ' ; '.join(stm).replace('"', '\\"')
+    # single-channel 16-bit images (U16), SSE4.1: four masks per kernel (other names in the four-row kernel), call sequences
+    f16h = 'src/convolution/u16x1/sse4.rs'
+    with open(os.path.join(repo, f16h)) as fh:
+        src16h = fh.read()
+    for fn, expect, tag in (('horiz_convolution_one_row', ['l01_shuffle', 'l23_shuffle', 'l45_shuffle', 'l67_shuffle'], ''),
+                            ('horiz_convolution_four_rows', ['l0l1_shuffle', 'l2l3_shuffle', 'l4l5_shuffle', 'l6l7_shuffle'], 'four_')):
+        m = re.search(r'unsafe fn %s\(.*?\n\}' % fn, src16h, re.S)
+        if not m:
+            raise TranslationError("%s: %s not found" % (f16h, fn))
+        body = re.sub(r'//[^\n]*', '', m.group(0))
+        body = re.sub(r'/\*.*?\*/', '', body, flags=re.S)
+        masks = []
+        for a in re.finditer(r'let (\w+_shuffle) = _mm_set_epi8\(([^;]*?)\);', body, re.S):
+            vals = [int(x) for x in a.group(2).replace('\n', ' ').split(',') if x.strip()]
+            if len(vals) != 16:
+                raise TranslationError("%s: mask %s does not have 16 entries" % (f16h, a.group(1)))
+            masks.append((a.group(1), list(reversed(vals))))
+        if [n for n, _ in masks] != expect:
+            raise TranslationError("%s: %s: expected the masks %s, found %s" % (f16h, fn, expect, [n for n, _ in masks]))
+        for (n, v), short in zip(masks, ['l01', 'l23', 'l45', 'l67']):
+            out += '/-- %s: %s: shuffle mask %s, byte 0 first -/\n' % (f16h, fn, n)
+            out += 'def u16x1_sse4_%s%s : List Int := [%s]\n\n' % (tag, short, ', '.join(str(x) if x >= 0 else '(%d)' % x for x in v))
+        calls = re.findall(r'\b(_mm_\w+(?:::<\w+>)?|simd_utils::\w+|chunks_exact|remainder|first|get_unchecked|sum::<i64>|normalizer\.clip|normalizer\.precision)\(([^()]*(?:\([^()]*\)[^()]*)*)\)', body)
+        sk = ' ; '.join('%s(%s)' % (c, ' '.join(a.split())) for c, a in calls if not c.endswith('set_epi8'))
+        out += '/-- %s: %s: every intrinsic / helper call with its arguments, in textual order -/\n' % (f16h, fn)
+        out += 'def u16x1_sse4_%s_skeleton : String := "%s"\n\n' % ('four_rows' if tag else 'one_row', sk.replace('"', '\\"'))
     # the vertical pass for 8-bit components (all four u8 pixel types)
     f = 'src/convolution/vertical_u8/sse4.rs'
     with open(os.path.join(repo, f)) as fh:
